@@ -1026,7 +1026,9 @@ func (s *vSerSys) prefixes(h []string) {
 	s.c.Outcome(fmt.Sprint(len(data)))
 }
 
-func (s *vSerSys) Key() string {
+func (s *vSerSys) Key() string { return s.keyCanon() + "#deep" + vDeepHash(s.src) }
+
+func (s *vSerSys) keyCanon() string {
 	return fmt.Sprintf("%s|%s|w%v|t%v", s.k.name, s.k.canon(s.src), s.written, s.retrained)
 }
 
